@@ -109,7 +109,7 @@ pub fn per_version_replay(v: (u8, u8), fill: Fill) -> AbsReplay {
 }
 
 /// Long games: beyond the parser's initial column capacity (1024 rows), absences at and around
-/// bitmap word boundaries (rows 7/8, 63/64/65, 1023/1024), more than 65,535 items in total.
+/// bitmap word boundaries (rows 7/8, 63/64/65, 1023/1024), more than 65,535 items in total, more than 65,536 frames.
 pub fn long_replays(quick: bool) -> Vec<AbsReplay> {
 	let mut out = vec![];
 	let versions: Vec<(u8, u8)> = if quick { vec![(1, 0), (2, 2), (3, 16)] } else { vec![(0, 1), (1, 0), (2, 0), (2, 2), (3, 0), (3, 7), (3, 16)] };
@@ -145,6 +145,17 @@ pub fn long_replays(quick: bool) -> Vec<AbsReplay> {
 		}
 		a.metadata = None;
 		out.push(a);
+	}
+	{
+		// more than 65,536 frames (a game of over 18 minutes): row counts beyond 16 bits, more than one
+		// chunk for anything that batches rows
+		let mut a = base_replay((0, 1), vec![pc(0, false)], 65_540);
+		a.metadata = None;
+		out.push(a);
+		let mut b = base_replay((3, 16), vec![pc(1, false)], 65_540);
+		b.frames[65_538].id = b.frames[65_536].id; // a rollback across the 65,536th row
+		b.frames[65_539].items = 1;
+		out.push(b);
 	}
 	out
 }
